@@ -91,8 +91,9 @@ def jobs(tier):
         J.append(spki_job(seq, weight=3 if len(seq) > 1 else 1, timeout=1500))
     J += hl_jobs((1, 2, 3))
     if tier == "thorough":
-        three = [list(s) for s in itertools.product((1, 2, 3), repeat=3) if s[0] == 1]
-        J += [spki_job(s, timeout=5400, weight=5, mem=28) for s in three]
-        J += [spki_job(s, timeout=5400, weight=5, mem=28) for s in ([1, 1, 4], [1, 4, 1], [1, 1, 1, 1], [1, 1, 1, 2], [1, 1, 2, 2])]
-        J += [spki_job([1, 1, 1], scaled=False, timeout=5400, weight=5, mem=28)]
+        # three-operation histories (each minutes and > 10 GB) and the reload operation; longer ones are left to the
+        # inductive container step below
+        J += [spki_job(s, timeout=5400, weight=5, mem=28) for s in ([1, 1, 1], [1, 1, 2], [1, 1, 3], [1, 2, 1], [1, 3, 1], [1, 1, 4], [1, 4])]
+        # container step with 16 buckets before the step (2 materialised objects)
+        J += [j for j in hl_jobs((4,), n=2, n_grow=2, timeout=3600) if "_b4_" in j.name]
     return J
